@@ -166,7 +166,8 @@ Definition sort_by {A} (lt : A -> A -> bool) (l : list A) : list A :=
 
 Definition z_in (z : Z) (l : list Z) : bool := existsb (Z.eqb z) l.
 
-Definition upd {A} (l : list A) (i : nat) (x : A) : list A := firstn i l ++ x :: skipn (S i) l.
+Definition upd {A} (l : list A) (i : nat) (x : A) : list A :=
+  if i <? length l then firstn i l ++ x :: skipn (S i) l else l.
 
 (** the loop of TypedArg< ContainerAdapter<T>>::assign over the tokens;
     [first] = this is the first token of the value (no cardinality step) *)
